@@ -3,7 +3,7 @@ from .. import core
 from ..engines import distn
 
 PROP = "C19"
-BUDGET = {"quick": 1500, "thorough": 40000}
+BUDGET = {"quick": 4000, "thorough": 80000}
 ALARM_S = 600
 RULE = ("seeded sequences of 4-10 calls over the nine families: d/p/q against scipy.stats in R's parameterisation (plain and "
         "log, scalar and vector arguments inside the support, q(p(x)) = x, nbinom mean/size form against the (n, p) form), and "
